@@ -149,6 +149,22 @@ mutant("c19-event-set-only-on-first-path", "C19", r"deadlock",
        ])
 
 
+mutant("c19-livelock-mutual-spin", "C19", r"no-progress-within-step-cap",
+       [("packages/python/lsprotocol/_hooks.py", "# Flag to ensure we only resolve forward references once.\n_resolved_forward_references = False\n",
+         "# Flag to ensure we only resolve forward references once.\n_resolved_forward_references = False\n_resolving = False\n_spinners = 0\n"),
+        ("packages/python/lsprotocol/_hooks.py", "    global _resolved_forward_references\n    if not _resolved_forward_references:\n",
+         "    global _resolved_forward_references, _resolving, _spinners\n    if not _resolved_forward_references:\n        if _resolving:\n            _spinners += 1\n            while not _resolved_forward_references:\n                pass\n            _spinners -= 1\n            return\n        _resolving = True\n"),
+        ("packages/python/lsprotocol/_hooks.py", "                attrs.resolve_types(value, types_map, {})\n        _resolved_forward_references = True",
+         "                attrs.resolve_types(value, types_map, {})\n        while _spinners:\n            pass\n        _resolved_forward_references = True"),
+       ], ["--runs", "200"])
+mutant("c19-spin-wait-is-not-a-livelock", "C19", r"^$",
+       [("packages/python/lsprotocol/_hooks.py", "# Flag to ensure we only resolve forward references once.\n_resolved_forward_references = False\n",
+         "# Flag to ensure we only resolve forward references once.\n_resolved_forward_references = False\n_resolving = False\n"),
+        ("packages/python/lsprotocol/_hooks.py", "    global _resolved_forward_references\n    if not _resolved_forward_references:\n",
+         "    global _resolved_forward_references, _resolving\n    if not _resolved_forward_references:\n        if _resolving:\n            while not _resolved_forward_references:\n                pass\n            return\n        _resolving = True\n"),
+       ], ["--runs", "150"])
+
+
 def apply_edits(root: pathlib.Path, edits: List[Tuple[str, str, str]]) -> None:
     for rel, old, new in edits:
         p = root / rel
@@ -174,7 +190,10 @@ def run_mutant(name: str, keep: bool = False) -> Tuple[bool, str, float]:
                            capture_output=True, text=True, timeout=1500)
         out = p.stdout + p.stderr
         sigs = re.findall(r"violation: (\S+)", out)
-        hit = p.returncode == 1 and any(re.search(m["expect"], s) for s in sigs)
+        if m["expect"] == "^$":  # negative control: a change that does NOT break the property
+            hit = p.returncode == 0 and not sigs
+        else:
+            hit = p.returncode == 1 and any(re.search(m["expect"], s) for s in sigs)
         detail = f"rc={p.returncode} signatures={sorted(set(sigs))[:4]}"
         if not hit:
             detail += " :: " + out[-400:].replace("\n", " | ")
